@@ -82,6 +82,28 @@ class Model(object):
         if not slots:
             raise AnalysisError("anchor vanished: makeService does not reach "
                                 "Server.__init__ with recognisable handle/config values")
+        # an option whose value reaches no slot at all is not "unrecognised
+        # plumbing" but a broken one
+        from .repo import PlumbingViolation
+        from .terms import mentions as _mentions
+        for key, role in (("allow-list", ("cfg", "allow_list")),
+                          ("blur-usage", ("cfg", "blur_usage"))):
+            if role in slots.values():
+                continue
+            held = []
+            hit = False
+            for p in self.paths("tap:makeService"):
+                for e, _ in flat_events(p.events):
+                    if e["k"] == "setattr" and e["obj"][0] == "obj" and \
+                            e["obj"][1] == "Server" and e["func"] == "Server.__init__":
+                        if _mentions(e["value"], lambda x: x[0] == "sub" and
+                                     x[2] == ("const", key)):
+                            hit = True
+                        held.append("%s=%s" % (e["attr"], __import__("sa.terms").terms.show(
+                            e["value"])[:40]))
+            if not hit:
+                raise PlumbingViolation(self, role[1], key, "Server slots: " +
+                                        "; ".join(sorted(set(held))[:8]))
         self.interp = Interp(self.repo, server_slots=slots)
         self.interp.names.require_complete()
         namesmod.CURRENT = self.interp.names
